@@ -327,10 +327,20 @@ def gen_stall_midstream(rng, n):
     return out
 
 
+def gen_stall_routing(rng, n):
+    """the routing-table store's Delete at teardown is stalled (nothing fails): the tunnel map must forget the ended tunnel anyway"""
+    out = []
+    for k in range(n):
+        out.append({"mode": "stall", "stall_on": "routing-delete", "ender": k % 3, "long": False,
+                    "r0": [dict(rand_data(rng, rng.choice([1, 9, 300])), e=0) for _ in range(rng.randrange(0, 3))],
+                    "r1": [dict(rand_data(rng, rng.choice([1, 9, 300])), e=0) for _ in range(rng.randrange(0, 3))]})
+    return out
+
+
 def stall_deterministic(c):
     """the direction that ends the tunnel has flushed >= 1 byte into its counter before it calls Close, so the final report
     made by Close's clean handler is due and parks in the stalled call"""
-    return c["mode"] == "stall" and ((c["ender"] == 0 and len(readable(c["r0"])) > 0) or (c["ender"] == 1 and len(readable(c["r1"])) > 0))
+    return c["mode"] == "stall" and c.get("stall_on") != "routing-delete" and ((c["ender"] == 0 and len(readable(c["r0"])) > 0) or (c["ender"] == 1 and len(readable(c["r1"])) > 0))
 
 
 def special_cases(thorough):
@@ -413,6 +423,8 @@ def classify(c, o, sliced):
         return "reattach-bytes-to-stale-end" if "did not reach the attached source end" in (o.get("prop_msg") or "") else "reattach-tunnel-broken"
     if key == "stuck" and "waiting for limiter tokens" in (o.get("prop_msg") or ""):
         return "token-wait-not-aborted-by-closure"
+    if key == "registry-routing":
+        return "tunnel-map-waits-for-routing-store"
     if key == "stalled-stats":
         return "copy-loop-waits-for-stats-backend"
     if key == "deadline":
@@ -497,6 +509,7 @@ def run(ctx, only_cases=None):
         cases += gen_parent_cancel(rng, 40 if thorough else 10)
         cases += gen_cancel_in_wait(rng, 8 if thorough else 2)
         cases += gen_stall_midstream(rng, 4 if thorough else 1)
+        cases += gen_stall_routing(rng, 12 if thorough else 3)
         if thorough:   # real loopback TCP, real 6.5 s pause of the remaining direction after the first one half-closed
             cases.append({"mode": "relay", "relay": "bidir", "flow": "reqresp", "fail_end": 0, "tcp": True, "delay_ms": 6500})
     # the start race can kill the harness process (nil dereference inside a goroutine of Bridge.Start): own process
@@ -582,7 +595,7 @@ def run(ctx, only_cases=None):
             "stats_backend_stalled": 0, "final_report_parked": 0, "forget_required_while_parked": 0,
             "write_parked_at_teardown": 0, "source_reattach_histories": 0, "reattaches": 0,
             "adapter_wrapped_end": 0, "one_sided_traffic_both_ends_open": 0, "end_fails_non_eof": 0, "half_close_relay": 0,
-            "parent_context_cancelled": 0, "write_error_transient_timeout": 0, "bytes_with_error_on_adapter_end": 0, "close_during_token_wait": 0, "stats_backend_stuck_midstream_3MiB": 0, "adapter_timeout_between_data": 0, "relay_pause_longer_than_any_deadline": 0, "permanent_timeout_failure": 0, "close_races_reattach": 0, "relay_end_without_half_close": 0, "early_eof_other_direction_live": 0}
+            "parent_context_cancelled": 0, "write_error_transient_timeout": 0, "bytes_with_error_on_adapter_end": 0, "close_during_token_wait": 0, "stats_backend_stuck_midstream_3MiB": 0, "routing_store_delete_stalled": 0, "adapter_timeout_between_data": 0, "relay_pause_longer_than_any_deadline": 0, "permanent_timeout_failure": 0, "close_races_reattach": 0, "relay_end_without_half_close": 0, "early_eof_other_direction_live": 0}
     for c, o in zip(cases, outs):
         h = hashlib.sha256(json.dumps(c, sort_keys=True).encode()).hexdigest()
         distinct.add(h)
@@ -595,6 +608,7 @@ def run(ctx, only_cases=None):
             (bool(c.get("wrap1")) and any(r["e"] >= 2 and ent_bytes(r) for r in c.get("r1", [])))
         dist["close_during_token_wait"] += bool(c.get("return_ms"))
         dist["stats_backend_stuck_midstream_3MiB"] += bool(c.get("arm_early"))
+        dist["routing_store_delete_stalled"] += c.get("stall_on") == "routing-delete"
         dist["adapter_timeout_between_data"] += bool(c.get("wrap0") or c.get("wrap1")) and any(r["e"] == 1 for r in c.get("r0", []) + c.get("r1", []))
         dist["parent_context_cancelled"] += bool(c.get("pcancel")) or (m == "bridge" and 2 in c.get("sched", [])) or any(op["op"] == "pcancel" for op in c.get("hist", []))
         dist["relay_pause_longer_than_any_deadline"] += m == "relay" and c.get("delay_ms", 0) >= 6000
